@@ -372,6 +372,23 @@ func typeEdits(g *Gen, prog *GProgram, r *Rand) string {
 				}
 				return "redeclare-other-type"
 			}
+			if len(prog.Vars) > 0 && r.Chance(1, 2) {
+				// a variable first used where any type fits, then - its second or third use - where its type does not
+				v := prog.Vars[r.Intn(len(prog.Vars))]
+				use := func() *GExpr { return &GExpr{Kind: XVar, S: v.Name} }
+				first := &GStmt{Kind: StCall, Call: &GFnCall{Name: "set_tx_meta", Args: []*GExpr{{Kind: XString, S: "first"}, use()}}}
+				var bad *GStmt
+				switch {
+				case v.Type != "account" && r.Chance(1, 2):
+					bad = &GStmt{Kind: StSend, Sent: &GSent{E: lit("USD", bi(1))}, Src: srcAcct("world"), Dst: &GDest{Kind: DstAccount, E: use()}}
+				case v.Type != "monetary":
+					bad = &GStmt{Kind: StSend, Sent: &GSent{E: use()}, Src: srcAcct("world"), Dst: dstAcct("a")}
+				default:
+					bad = &GStmt{Kind: StCall, Call: &GFnCall{Name: "set_tx_meta", Args: []*GExpr{use(), {Kind: XNumber, N: bi(1)}}}}
+				}
+				prog.Stmts = append(append([]*GStmt{first}, prog.Stmts...), bad)
+				return "later-use-mistyped"
+			}
 			return "none"
 		}
 		// one argument of a built-in call (often the LAST one) gets a value of another type: a literal, or a
